@@ -3,6 +3,7 @@ import Afkak.Monitor.C09
 import Afkak.Producer
 import AfkakProofs.Producer.Spec
 import AfkakProofs.Producer.RelStep
+import AfkakProofs.Producer.Geo
 /-!
 # C09 — Per-partition send order is preserved and retries are disciplined
 Property theorems only.  Model: `Afkak/Producer.lean`; monitors: `Afkak/Monitor/C09.lean`.
@@ -26,6 +27,14 @@ theorem C09_retry_only_failed (cfg : Cfg) (evs : List Ev) : retryOnlyFailed cfg 
     `max(1, max_req_attempts)` times (first attempt plus retries). -/
 theorem C09_attempt_bound (cfg : Cfg) (evs : List Ev) : attemptBound cfg (traceOf cfg evs) = true :=
   attemptBound_model cfg evs
+
+/-- Geometric delays — trace level, for EVERY event list: the k-th timer (metadata back-off or produce
+    retry) set since the batch in flight was dispatched waits EXACTLY `init * factor^k`, and the count
+    restarts when the batch resolves (the step ends with no batch in flight, or the completion hook
+    dispatched the next batch).  The factor is the one the source contains (extractor) and is > 1, so
+    delays grow.  (On implementation traces the same monitor runs with a 1e-9 float tolerance.) -/
+theorem C09_geometric (cfg : Cfg) (evs : List Ev) : geometric cfg 0 (traceOf cfg evs) = true :=
+  geometric_model cfg evs
 
 /-- Retry only what failed (handler level): whatever result `r` the client gives for the attempt in
     flight (valid or not, any state `st`), `_handle_send_response` either resolves the batch or
@@ -70,11 +79,11 @@ end Afkak.Props.C09
 C09_factor_gt_one
 C09_retry_only_failed
 C09_attempt_bound
+C09_geometric
 C09_retry_only_failed_handler
 C09_retry_guard_handler
 -/
 /- OPEN_STATEMENTS
 C09_order
 C09_one_batch
-C09_geometric
 -/
